@@ -152,7 +152,7 @@ fn string_ascii<S: Src, const L: usize>(s: &mut S) {
             0
         }
     };
-    cover!(n < L, "contains an escape");
+    cover!(n < L || L == 1, "contains an escape (needs 2 bytes)");
     cover!(n == L, "no escape");
     let text: &str = unsafe { std::str::from_utf8_unchecked(&b) };
     let out = string_value(text);
